@@ -85,7 +85,7 @@ pub enum Limit {
 /// wall-clock bound for one search: only used to recognise non-termination (searches in this
 /// harness take micro- to milliseconds; a search that does not return within this bound and does
 /// not even poll its limit any more is reported as non-terminating)
-const SEARCH_DEADLINE_S: u64 = 25;
+const SEARCH_DEADLINE_S: u64 = 120;
 
 /// run one search on its own thread; `hist` are the positions of the repetition history
 pub fn run_search(board: &Board, hist: &[Board], limit: Limit, positional: bool) -> Run {
